@@ -15,18 +15,6 @@ def optBool (j : Json) (k : String) : Option Bool :=
 def optInt (j : Json) (k : String) : Option Int :=
   match j.getObjValAs? Int k with | .ok n => some n | _ => none
 
-/-- schema: {"ty","nullable","ro","wo","minLen","max","props":[[k,S]],"required":[..],"addl","items"} -/
-partial def parseRS (j : Json) : RS :=
-  let props := (getArr j "props").filterMap fun kv =>
-    match kv with
-    | .arr #[.str k, s] => some (k.toList, parseRS s)
-    | _ => none
-  let items := if isNull j "items" then none else some (parseRS (getD j "items" Json.null))
-  let nt := if isNull j "not" then none else some (parseRS (getD j "not" Json.null))
-  RS.mk (parseTy (getStr j "ty")) (getBool j "nullable") (getBool j "ro") (getBool j "wo") (getNat j "minLen")
-    (optInt j "max") props ((strs (getArr j "required")).map String.toList) (optBool j "addl") items
-    nt ((getArr j "oneOf").map parseRS) ((getArr j "anyOf").map parseRS) ((getArr j "allOf").map parseRS)
-
 /-- value: null | bool | {"i":n} | {"h":n} | {"s":".."} | {"a":[..]} | {"o":[[k,v]..]} -/
 partial def parseV (j : Json) : V :=
   match j with
@@ -50,6 +38,22 @@ partial def parseV (j : Json) : V :=
         match kv with | .arr #[.str k, v] => some (k.toList, parseV v) | _ => none)
     | _ => .null
 
+/-- schema: {"ty","nullable","ro","wo","minLen","max","props":[[k,S]],"required":[..],"addl","items","not","oneOf",
+"anyOf","allOf","dflt": value (null / absent = no default)} -/
+partial def parseRS (j : Json) : RS :=
+  let props := (getArr j "props").filterMap fun kv =>
+    match kv with
+    | .arr #[.str k, s] => some (k.toList, parseRS s)
+    | _ => none
+  let items := if isNull j "items" then none else some (parseRS (getD j "items" Json.null))
+  let nt := if isNull j "not" then none else some (parseRS (getD j "not" Json.null))
+  RS.mk (parseTy (getStr j "ty")) (getBool j "nullable") (getBool j "ro") (getBool j "wo") (getNat j "minLen")
+    (optInt j "max") props ((strs (getArr j "required")).map String.toList) (optBool j "addl") items
+    nt ((getArr j "oneOf").map parseRS) ((getArr j "anyOf").map parseRS) ((getArr j "allOf").map parseRS)
+    { dflt := if isNull j "dflt" then none else some (parseV (getD j "dflt" Json.null)),
+      minProps := getNat j "minProps",
+      maxProps := if isNull j "maxProps" then none else some (getNat j "maxProps") }
+
 def parseJsonView (j : Json) (k : String) : Option V :=
   if isNull j k then none else some (parseV (getD (getD j k Json.null) "v" Json.null))
 
@@ -61,9 +65,15 @@ def parseMT (j : Json) : Str × MediaType :=
    { schema := if isNull j "schema" then none else some (parseRS (getD j "schema" Json.null)),
      encs := (getArr j "encs").map parseEnc })
 
+def parseCsvView (j : Json) (k : String) : Option (List (List Str)) :=
+  if isNull j k then none else
+    some ((getArr j k).map fun rec => match rec with
+      | .arr fs => (strs fs.toList).map String.toList
+      | _ => [])
+
 def parsePart (j : Json) : Part :=
   { name := (getStr j "name").toList, ct := (getStr j "ct").toList, text := (getStr j "text").toList,
-    json := parseJsonView j "json" }
+    json := parseJsonView j "json", yaml := parseJsonView j "yaml", csv := parseCsvView j "csv" }
 
 def parseBody (j : Json) : BodyIn :=
   { text := (getStr j "text").toList,
@@ -73,7 +83,9 @@ def parseBody (j : Json) : BodyIn :=
         match kv with
         | .arr #[.str k, .arr vs] => some (k.toList, (strs vs.toList).map String.toList)
         | _ => none),
-    parts := if isNull j "parts" then none else some ((getArr j "parts").map parsePart) }
+    parts := if isNull j "parts" then none else some ((getArr j "parts").map parsePart),
+    yaml := parseJsonView j "yaml",
+    csv := parseCsvView j "csv" }
 
 mutual
 partial def vJson : V → Json
@@ -88,7 +100,7 @@ end
 
 def outcomeStr : Outcome → String
   | .ok => "ok" | .missing => "missing" | .badCT => "badCT" | .decodeErr => "decodeErr"
-  | .schemaErr => "schemaErr" | .panic => "panic" | .unmodelled => "unmodelled"
+  | .schemaErr => "schemaErr" | .rewriteErr => "rewriteErr" | .panic => "panic" | .unmodelled => "unmodelled"
 
 /-- which precedence level of `Content.Get` answered (for the branch statistics) -/
 def ctLevel (c : List (Str × MediaType)) (mime : Str) : String :=
@@ -117,6 +129,30 @@ partial def compKinds (s : RS) : List String :=
   (s.props.map (fun kp => compKinds kp.2)).flatten ++ (match s.items with | some it => compKinds it | none => []) ++
   ((s.oneOf ++ s.anyOf ++ s.allOf).map compKinds).flatten ++ (match s.nt with | some n => compKinds n | none => [])
 
+/-- the `reqRO` guard of the injection loop is reached: a read-only property with a default whose key is absent
+(looking through composition members, properties and items) -/
+partial def roGuard (s : RS) (v : V) : Bool :=
+  (match v with
+   | .obj kvs =>
+     s.props.any (fun (k, p) => (p.ro && p.dflt.isSome && (lookup k kvs).isNone) ||
+       (match lookup k kvs with | some x => roGuard p x | none => false))
+   | .arr xs => (match s.items with | some it => xs.any (roGuard it) | none => false)
+   | _ => false) ||
+  (s.oneOf ++ s.anyOf ++ s.allOf).any (fun m => roGuard m v)
+
+partial def dfltKinds (s : RS) : List String :=
+  (s.props.map (fun (_, p) =>
+    (if p.dflt.isSome then [if p.ro then "dflt.on.readOnly" else if p.wo then "dflt.on.writeOnly" else "dflt.on.plain"] else []) ++
+    dfltKinds p)).flatten ++
+  (match s.items with | some it => dfltKinds it | none => []) ++
+  (if hasDfltL s.oneOf || hasDfltL s.anyOf || hasDfltL s.allOf then ["dflt.in.composition"] else []) ++
+  ((s.oneOf ++ s.anyOf ++ s.allOf).map dfltKinds).flatten
+
+partial def hasCount (s : RS) : Bool :=
+  s.minProps != 0 || s.maxProps.isSome || s.props.any (fun kp => hasCount kp.2) ||
+  (match s.items with | some it => hasCount it | none => false) ||
+  (match s.nt with | some n => hasCount n | none => false) || (s.oneOf ++ s.anyOf ++ s.allOf).any hasCount
+
 def decLabel (reg : List (Str × DecK)) (ct : Str) : String :=
   match lookup (base ct) reg with
   | none => "dec.unsupported"
@@ -129,10 +165,17 @@ def handle (j : Json) : Json :=
   let ct := (getStr j "ct").toList
   let b := parseBody (getD j "body" Json.null)
   let exro := getBool j "exro"
-  let out := validateRequestBody registry rb ct b exro
-  let spec := acceptB registry rb ct b exro
+  let ds := !(getBool j "skipDefaults")
+  let out := validateRequestBodyD registry rb ct b exro ds
+  let neutral := caseNeutral registry rb ct b exro ds
+  let twoPhase := ds && !neutral && caseCompFree registry rb ct b
+  -- the request-side reading where defaults are neutral; the two-phase reading (completed value) for
+  -- composition-free schemas whose defaults decide; elsewhere no specification applies
+  let spec := if twoPhase then acceptDB registry rb ct b exro ds else acceptB registry rb ct b exro
   let excl :=
-    (if exclFormUnparsable registry rb ct b then ["FormFieldUnparsable"] else [])
+    (if exclFormUnparsable registry rb ct b then ["FormFieldUnparsable"] else []) ++
+    (if exclNoBodyEncoder registry rb ct b exro ds then ["NoBodyEncoder"] else [])
+  let applies := neutral || twoPhase
   let reached := !(b.text = []) && !rb.content.isEmpty
   let sel := contentGet rb.content ct
   let decoding := reached && (match sel with | some mt => mt.schema.isSome | none => false)
@@ -151,6 +194,8 @@ def handle (j : Json) : Json :=
     (if decoding then [decLabel registry ct] else []) ++
     (if out = .decodeErr then ["out.decodeErr"] else []) ++
     (if out = .schemaErr then ["out.schemaErr"] else []) ++
+    (if out = .rewriteErr then ["out.rewriteErr"] else []) ++
+    (if !ds then ["opt.skipDefaults"] else []) ++
     (if decoding && out = .ok then ["out.validated"] else []) ++
     (match dv with
      | some (s, v) =>
@@ -162,19 +207,33 @@ def handle (j : Json) : Json :=
        (if lookup (base ct) registry == some .urlencoded && !(sel.map (·.encs.isEmpty)).getD true then ["form.encoding"] else []) ++
        (if hasRO s && exro then ["opt.exro"] else []) ++
        (if visit exro s v != visit (!exro) s v then ["opt.exro.decides"] else []) ++
+       (if hasCount s then ["schema.propertyCount"] else []) ++
+       (if hasCount s && ds && firesD exro s v then ["dflt.fires.counted"] else []) ++
+       (if hasDflt s then (if ds then ["dflt.declared"] else ["dflt.declared.skipped"]) else []) ++
+       (if hasDflt s then (dfltKinds s).eraseDups else []) ++
+       (if hasDflt s && ds && roGuard s v && !exro then ["dflt.readOnly.guarded"] else []) ++
+       (if ds && firesD exro s v then
+          ["dflt.fires", if defaultsNeutral exro s v then "dflt.fires.neutral"
+                         else if compFree s then "dflt.fires.twoPhaseSpec" else "dflt.fires.specNA"] ++
+          (if !(compFree s) then ["dflt.fires.composition"] else []) ++
+          (if compFree s && !dfltsHarmless exro s then ["dflt.fires.requiredOrNonconforming"] else []) ++
+          (if (visD true exro s v).isSome != visit exro s v then ["dflt.changesVerdict"] else [])
+        else []) ++
        (match v with | .obj _ => ["val.obj"] | .arr _ => ["val.arr"] | .str _ => ["val.str"] | .null => ["val.null"] | _ => ["val.prim"])
      | none => []) ++
     (if !(b.text = []) && b.text.all (fun c => c == ' ' || c == '\n' || c == '\t' || c == '\r') then ["body.blank"] else []) ++
     (if !excl.isEmpty then ["excl"] else []) ++
     (if !formEncsWF registry rb ct b then ["form.encs.notWF"] else [])
   if out = .unmodelled then
-    jobj [("error", Json.str "case outside the model (YAML/CSV/nested decoder): generator must not produce it")]
+    jobj [("error", Json.str "case outside the model (YAML/CSV/nested decoder, default below `not`, nested default under a media type without encoder): generator must not produce it")]
+  else if !caseWF registry rb ct b then
+    jobj [("error", Json.str "duplicate keys in a properties map or in an object value: generator must not produce it")]
   else
   jobj [
     ("model", jobj [("outcome", Json.str (outcomeStr out)), ("ok", Json.bool out.isOk),
                     ("decoding", Json.bool decoding),
                     ("decoded", match dv with | some (_, v) => jobj [("v", vJson v)] | none => Json.null)]),
-    ("spec", jobj [("accept", Json.bool spec),
+    ("spec", jobj [("accept", Json.bool spec), ("applies", Json.bool applies),
                    ("decoded", match specDv with | some v => jobj [("v", vJson v)] | none => Json.null)]),
     ("excl", jstrs excl),
     ("branches", jstrs branches)]
